@@ -40,8 +40,6 @@ VARIABLES
 woVars == <<lock, kind, inRec, stamp, stamped, logged, lastStamp, maxLogged, unlogged, disk, hdrNext, hdrNx, hdrDone>>
 
 DML == {"insert", "update", "delete"}
-MaxOf(S) == IF S = {} THEN 0 ELSE CHOOSE x \in S : \A y \in S : y <= x
-DiskMax == MaxOf({disk[p] : p \in DOMAIN disk})
 DiskLsn(p) == IF p \in DOMAIN disk THEN disk[p] ELSE 0
 Put(f, k, v) == [x \in DOMAIN f \cup {k} |-> IF x = k THEN v ELSE f[x]]
 Drop(f, k) == [x \in DOMAIN f \ {k} |-> f[x]]
@@ -135,7 +133,7 @@ WritePage(p, lsn) == /\ lock = "X" /\ hdrDone = "no"
 \* and free pages beyond every page in the file; neither promise ever moves backwards
 WriteHeader(next, nx) == /\ lock = "X" /\ hdrDone = "no"
                          /\ DOMAIN stamp = {}
-                         /\ next > maxLogged /\ next > DiskMax /\ next >= hdrNext
+                         /\ next > maxLogged /\ (\A p \in DOMAIN disk : disk[p] < next) /\ next >= hdrNext
                          /\ nx >= hdrNx /\ \A p \in DOMAIN disk : p < nx
                          /\ hdrNext' = next /\ hdrNx' = nx /\ hdrDone' = "yes"
                          /\ UNCHANGED <<lock, kind, inRec, stamp, stamped, logged, lastStamp, maxLogged, unlogged, disk>>
